@@ -107,6 +107,10 @@ def gen_cases(rng: Rng, tier):
         m = rng.randint(3, 12) if tier == "thorough" or rng.random() < 0.2 else rng.randint(3, 8)
         lo = rng.choice([0, 0, 1, -2, 10])
         scale = rng.choice([1, 1, 2, 4])
+        if k % 6 == 4:
+            # large offset, small spacing (day numbers, decimal years, timestamps): spacing/|t| from 1e-10 to 1e-5,
+            # all points exact floats; positions on the grid must be found exactly, not "closely"
+            lo, scale = rng.choice([(2 ** 21 + 5, Fraction(1, 16)), (2 ** 11 - 28, Fraction(1, 8)), (2 ** 31, Fraction(1, 4)), (-(2 ** 16), Fraction(1, 32))])
         t = rng.grid(m, lo=lo, scale=scale)
         V, vk = _values(rng, n, m, t)
         V2 = [rng.dyadics(m, -3, 3, 2) for _ in range(n)]
@@ -120,7 +124,7 @@ def gen_cases(rng: Rng, tier):
             lpdeg=rng.choice([0, 1, 1, 2]),
             nseg=rng.randint(1, 5), psdeg=rng.randint(1, 3), pen=rs(rng.choice([Fraction(1, 4), 1, 1, 8, 0])),
             order=rng.choice([1, 2, 2, 3]), a=rs(rng.choice([rng.dyadic(-3, 3, 2), Fraction(2), Fraction(0)])),
-            csv=(k % 10 == 7),
+            csv=(k % 10 == 7), strided=(k % 4 == 1),
         )
 
 
@@ -148,7 +152,15 @@ def _Fm(m):
     return [[F(x) for x in r] for r in m]
 
 
-def _build(t, V, M):
+def _strided(a):
+    """The same 1-D array as a strided view of a larger buffer (non-contiguous memory)."""
+    a = np.asarray(a)
+    big = np.zeros(2 * len(a), dtype=a.dtype)
+    big[::2] = a
+    return big[::2]
+
+
+def _build(t, V, M, strided=False):
     from FDApy.representation.argvals import DenseArgvals, IrregularArgvals
     from FDApy.representation.functional_data import DenseFunctionalData, IrregularFunctionalData
     from FDApy.representation.values import DenseValues, IrregularValues
@@ -160,6 +172,11 @@ def _build(t, V, M):
     A = IrregularFunctionalData(IrregularArgvals(a_nan), IrregularValues(v_nan))
     a_rag = {i: DenseArgvals({"input_dim_0": t[Mb[i]].copy()}) for i in range(n)}
     v_rag = {i: V[i][Mb[i]].copy() for i in range(n)}
+    if strided:
+        v_nan = {i: _strided(v) for i, v in v_nan.items()}
+        v_rag = {i: _strided(v) for i, v in v_rag.items()}
+        a_rag = {i: DenseArgvals({"input_dim_0": _strided(a["input_dim_0"])}) for i, a in a_rag.items()}
+        A = IrregularFunctionalData(IrregularArgvals(a_nan), IrregularValues(v_nan))
     B = IrregularFunctionalData(IrregularArgvals(a_rag), IrregularValues(v_rag))
     D = None
     if Mb.all():
@@ -328,7 +345,7 @@ def _run_enc(case):
     V2 = np.array(fl(_Fm(case["V2"])), dtype=float)
     M = case["M"]
     out = {}
-    A, B, D = _build(t, V, M)
+    A, B, D = _build(t, V, M, strided=bool(case.get("strided")))
     if case.get("csv"):
         # the ragged object comes from a real CSV file through read_csv (integer abscissae: the grid is re-labelled)
         import os
@@ -361,14 +378,47 @@ def _run_enc(case):
     out["nan"] = _ops(A, case)
     out["rag"] = _ops(B, case)
     A2, B2, D2 = _build(t, V2, M)
+    V2d = np.where(V2 == 0, 1.0, V2)
+    A2d, B2d, D2d = _build(t, V2d, M)
+    yd = dict(nan=A2d, rag=B2d)
+    # NaN encoding only: the second operand misses OTHER samples (same sampling points, so the operands are
+    # compatible): the result may only contain samples observed in both operands
+    Mb = np.array(M, dtype=bool)
+    M3 = Mb.copy()
+    g3 = np.random.default_rng(int(abs(V).sum() * 8) % (2 ** 31) + len(t))
+    M3 &= g3.uniform(size=Mb.shape) < 0.6
+    M3 |= ~Mb & (g3.uniform(size=Mb.shape) < 0.5)
+    A3 = _build(t, V2d, M3.astype(int).tolist())[0]
+    out["mixed"] = {}
+    import operator
+
+    for nm, op in (("add", operator.add), ("sub", operator.sub), ("mul", operator.mul), ("div", operator.truediv), ("floordiv", operator.floordiv)):
+        try:
+            with warnings.catch_warnings():
+                warnings.simplefilter("ignore")
+                R = op(A, A3)
+            got = np.array([np.asarray(R.values[i], dtype=float) for i in range(len(V))])
+            both = Mb & M3
+            ref = {"add": V + V2d, "sub": V - V2d, "mul": V * V2d, "div": V / V2d, "floordiv": np.floor_divide(V, V2d)}[nm]
+            out["mixed"][nm] = dict(fake=int((~np.isnan(got) & ~both).sum()), lost=int((np.isnan(got) & both).sum()),
+                                    wrong=int((~np.isclose(got[both], ref[both], rtol=1e-12, atol=0)).sum()))
+        except Exception as e:
+            out["mixed"][nm] = "error:" + err_class(e)
     for key, x, y in (("nan", A, A2), ("rag", B, B2)):
         _try(out[key], "add", lambda: _content(x + y))
         _try(out[key], "sub", lambda: _content(x - y))
         _try(out[key], "mulfd", lambda: _content(x * y))
+        _try(out[key], "divfd", lambda: _content(x / yd[key]))
+        _try(out[key], "floordivfd", lambda: _content(x // yd[key]))
+        _try(out[key], "divfd_nsq", lambda: np.asarray((x / yd[key]).norm(squared=True), dtype=float).tolist())
+        _try(out[key], "divfd_npoints", lambda: [int(np.sum(~np.isnan(v))) for v in (x / yd[key]).values.values()])
+        _try(out[key], "divfd_long", lambda: _long(x / yd[key]))
         _try(out[key], "unchanged", lambda: _content(x) == _content(_build(t, V, M)[0 if key == "nan" else 1]))
     if D is not None:
         out["dense"] = _ops(D, case, irregular=False)
         _try(out["dense"], "add", lambda: _dense_content(D + D2))
+        _try(out["dense"], "divfd", lambda: _dense_content(D / D2d))
+        _try(out["dense"], "floordivfd", lambda: _dense_content(D // D2d))
     from FDApy.misc.utils import DIFF_SEQUENCES
 
     out["diffseq"] = [rs(Fraction(float(x))) for x in DIFF_SEQUENCES[case["order"]]]
@@ -575,7 +625,7 @@ def compare(case, impl, model):
     for e, s in zip(encs, parts[:2]):
         ds += _cmp_mat(f"raw covariance (center=False)[{e}]", impl[e]["cov_raw_nc"], s, vs * vs)
     parts = o[7].split(" | ")
-    names = ["add", "sub", "mulfd", "mul", "addnum"]
+    names = ["add", "sub", "mulfd", "mul", "addnum", "divfd"]
     for k, nm in enumerate(names):
         for j, e in enumerate(encs):
             ds += _cmp_rows(f"{nm}[{e}]", impl[e][nm], _rows(parts[2 * k + j]), exact=False, scale=vs * vs + 10)
@@ -641,11 +691,13 @@ ENTRY = {
     "rescale_ps": "rescale", "rescale_default": "rescale", "to_basis": "to_basis", "add": "arithmetic", "sub": "arithmetic",
     "mulfd": "arithmetic", "mul": "arithmetic", "rmul": "arithmetic", "addnum": "arithmetic", "to_dense": "to_dense",
     "mean_lp_again": "mean", "nsq_again": "norm", "noise_again": "noise_variance",
+    "arith_add": "arithmetic", "arith_sub": "arithmetic", "arith_mul": "arithmetic", "arith_div": "arithmetic", "arith_floordiv": "arithmetic",
     "smooth_lp_pts": "smooth", "smooth_ps_pts": "smooth", "smooth_interp_pts": "smooth", "mean_lp_pts": "mean",
+    "divfd": "arithmetic", "floordivfd": "arithmetic", "divfd_nsq": "arithmetic", "divfd_npoints": "arithmetic", "divfd_long": "arithmetic",
     "center_given": "center", "nsq_stand": "norm", "gram_lp_s2": "inner_product", "divnum": "arithmetic", "tb_grid": "to_basis",
 }
 DEFAULT_BW = {"smooth_lp_default", "mean_default", "center_default", "cov_default", "gram_default", "rescale_default"}
-ROWS = {"to_long", "center_lp", "center_default", "center_given", "normalize", "add", "sub", "mulfd", "mul", "rmul", "addnum", "divnum"}
+ROWS = {"to_long", "center_lp", "center_default", "center_given", "normalize", "add", "sub", "mulfd", "mul", "rmul", "addnum", "divnum", "divfd", "floordivfd", "divfd_long"}
 
 
 def _flat(key, v):
@@ -741,6 +793,13 @@ def _oracle_enc(case, impl):
         if isinstance(tb, list) and isinstance(sp, list):
             if not np.allclose(np.array(tb), np.array(sp), rtol=0, atol=1e-6 * max(1.0, float(np.abs(np.array(sp)).max()))):
                 bad("to_basis_to_grid", "to_basis", f"{e} encoding: to_basis().to_grid() differs from smooth(method='PS') with the same settings")
+    for nm, r in (impl.get("mixed") or {}).items():
+        if isinstance(r, str):
+            bad("arithmetic_content", "arith_" + nm, f"NaN encoding, operands missing different samples: {r}")
+        elif r["fake"] or r["lost"] or r["wrong"]:
+            bad("arithmetic_content", "arith_" + nm,
+                f"NaN encoding, operands missing different samples: the result has {r['fake']} samples observed in only one operand (or none), "
+                f"loses {r['lost']} samples observed in both, {r['wrong']} wrong values")
     # second call on the same object
     for again, first in (("mean_lp_again", "mean_lp"), ("nsq_again", "nsq"), ("noise_again", "noise")):
         for e, o_ in (("NaN", A), ("ragged", B)):
@@ -763,7 +822,8 @@ def _oracle_enc(case, impl):
                  ("cov_lp", "cov_lp", n / (n - 1)), ("gram_lp", "gram_none", 1.0), ("gram_lp", "gram_lp", 1.0),
                  ("add", "add", 1.0), ("mul", "mul", 1.0), ("to_basis", "to_basis", 1.0), ("smooth_lp_pts", "smooth_lp_pts", 1.0),
                  ("smooth_ps_pts", "smooth_ps_pts", 1.0), ("mean_lp_pts", "mean_lp_pts", 1.0), ("center_given", "center_given", 1.0),
-                 ("nsq_stand", "nsq_stand", 1.0), ("gram_lp_s2", "gram_none_s2", 1.0), ("divnum", "divnum", 1.0)]
+                 ("nsq_stand", "nsq_stand", 1.0), ("gram_lp_s2", "gram_none_s2", 1.0), ("divnum", "divnum", 1.0),
+                 ("divfd", "divfd", 1.0), ("floordivfd", "floordivfd", 1.0)]
         for ki, kd, fac in pairs:
             for e, o_ in (("NaN", A), ("ragged", B)):
                 if ki not in o_ or kd not in Dn:
